@@ -239,6 +239,30 @@ func runC27(c *Ctx) {
 					}
 				}
 			}
+			// or: the pattern has no glob metacharacter (`!strings.ContainsAny(pattern, S)` with *, ?, [ and \ in S)
+			// and equals the tenant — for such a pattern filepath.Match is string equality
+			if !ok2 && rng.Key != nil {
+				plain, equal := false, false
+				for _, g := range gs {
+					cond, pol := unparen(g.Cond), g.Pol
+					if u, isNot := cond.(*ast.UnaryExpr); isNot && u.Op == token.NOT {
+						cond, pol = unparen(u.X), !pol
+					}
+					if call, isCall := cond.(*ast.CallExpr); isCall && !pol && isCallTo(minfo, call, "strings.ContainsAny") && len(call.Args) == 2 && sameObjExpr(minfo, call.Args[0], rng.Key) {
+						if tv, okc := minfo.Types[call.Args[1]]; okc && tv.Value != nil {
+							s := tv.Value.ExactString()
+							plain = strings.Contains(s, "*") && strings.Contains(s, "?") && strings.Contains(s, "[") && strings.Contains(s, `\`)
+						}
+					}
+					if be, isBin := cond.(*ast.BinaryExpr); isBin && pol && be.Op == token.EQL {
+						if (sameObjExpr(minfo, be.X, rng.Key) && canon(be.Y) == paramWhere(mf, func(t string) bool { return t == "string" })) ||
+							(sameObjExpr(minfo, be.Y, rng.Key) && canon(be.X) == paramWhere(mf, func(t string) bool { return t == "string" })) {
+							equal = true
+						}
+					}
+				}
+				ok2 = plain && equal
+			}
 			// and within case TenantMatcherGlob
 			inGlob := false
 			for par := p.ParentOf(mf.Pkg, ret); par != nil && par != mf.Node(); par = p.ParentOf(mf.Pkg, par) {
